@@ -274,6 +274,48 @@ def features(f):
     return out
 
 
+# ---- the fragment with a Lean model (lean/StepModel/GenPyStmt.lean): assignment, IF, REPEAT with an increment control only,
+# SKIP, ESCAPE, BEGIN-END (a sequence), RETURN; LOCAL initial values are written by FUNCPrint as leading assignments
+
+def in_fragment(f):
+    for s in walk(f.body):
+        if s[0] in ("while", "until", "case"):
+            return False
+        if s[0] == "for" and (s[5] is not None or s[6] is not None):
+            return False
+    return True
+
+
+def lean_tokens(f):
+    """the function body (LOCAL initial values first) in the prefix form of `m_c18` `func` lines"""
+    def seq(stmts):
+        if not stmts:
+            return ["nop"]
+        if len(stmts) == 1:
+            return one(stmts[0])
+        return ["seq"] + one(stmts[0]) + seq(stmts[1:])
+
+    def one(s):
+        k = s[0]
+        if k == "assign":
+            return ["asg", s[1]] + X.prefix_of(s[2])
+        if k == "if":
+            return ["if"] + X.prefix_of(s[1]) + seq(s[2]) + seq(s[3] or [])
+        if k == "for":
+            return ["rep", s[1]] + X.prefix_of(s[2]) + X.prefix_of(s[3]) + [str(1 if s[4] is None else s[4])] + seq(s[7])
+        if k == "skip":
+            return ["skip"]
+        if k == "escape":
+            return ["esc"]
+        if k == "begin":
+            return seq(s[1])
+        if k == "return":
+            return ["ret"] + X.prefix_of(s[1])
+        raise ValueError(k)
+    inits = [("assign", n, init) for n, init in f.locals if init is not None]
+    return seq(inits + list(f.body))
+
+
 def _name(rng, used, p_kw):
     while True:
         n = rng.choice(PY_KEYWORDS) if rng.random() < p_kw else rng.choice("bcdghkmnpqrsuvwz") + rng.choice(["", "1", "2", "x"])
@@ -282,15 +324,17 @@ def _name(rng, used, p_kw):
             return n
 
 
-def gen_stmts(rng, vars_, counters, depth, in_for, n):
+def gen_stmts(rng, vars_, counters, depth, in_for, n, frag=False):
     out = []
     for _ in range(n):
         r = rng.random()
+        if frag and (0.75 <= r < 0.9):           # no counted WHILE / UNTIL loops, no CASE in the modelled fragment
+            r = rng.choice([0.1, 0.5, 0.6, 0.92])
         if depth <= 0 or r < 0.4:
             out.append(("assign", rng.choice(vars_["w"]), gen_int(rng, vars_["r"], 2)))
         elif r < 0.55:
-            out.append(("if", gen_bool(rng, vars_["r"], 2), gen_stmts(rng, vars_, counters, depth - 1, in_for, rng.randrange(1, 3)),
-                        gen_stmts(rng, vars_, counters, depth - 1, in_for, rng.randrange(1, 3)) if rng.random() < 0.5 else None))
+            out.append(("if", gen_bool(rng, vars_["r"], 2), gen_stmts(rng, vars_, counters, depth - 1, in_for, rng.randrange(1, 3), frag),
+                        gen_stmts(rng, vars_, counters, depth - 1, in_for, rng.randrange(1, 3), frag) if rng.random() < 0.5 else None))
         elif r < 0.75 and vars_["loop"]:
             v = vars_["loop"].pop()
             lo = ("i", rng.choice([0, 1, 2])) if rng.random() < 0.6 else ("a", rng.choice(vars_["p"]))
@@ -299,13 +343,13 @@ def gen_stmts(rng, vars_, counters, depth, in_for, n):
             if step is not None and step < 0:
                 lo, hi = hi, lo
             inner = dict(vars_); inner["r"] = vars_["r"] + [v]
-            wh = gen_bool(rng, inner["r"], 1) if rng.random() < 0.2 else None
-            un = gen_bool(rng, inner["r"], 1) if rng.random() < 0.2 else None
-            body = gen_stmts(rng, inner, counters, depth - 1, "plain" if wh is None and un is None else "ctl", rng.randrange(1, 3))
+            wh = gen_bool(rng, inner["r"], 1) if (rng.random() < 0.2 and not frag) else None
+            un = gen_bool(rng, inner["r"], 1) if (rng.random() < 0.2 and not frag) else None
+            body = gen_stmts(rng, inner, counters, depth - 1, "plain" if wh is None and un is None else "ctl", rng.randrange(1, 3), frag)
             out.append(("for", v, lo, hi, step, wh, un, body))
         elif r < 0.83 and counters:
             c = counters.pop()
-            out.append((rng.choice(["while", "until"]), c, rng.choice([0, 1, 2, 3]), gen_stmts(rng, vars_, counters, depth - 1, None, rng.randrange(1, 3))))
+            out.append((rng.choice(["while", "until"]), c, rng.choice([0, 1, 2, 3]), gen_stmts(rng, vars_, counters, depth - 1, None, rng.randrange(1, 3), frag)))
         elif r < 0.9:
             items, labels = [], [0, 1, 2, 3, 5, 7]
             rng.shuffle(labels)
@@ -318,11 +362,11 @@ def gen_stmts(rng, vars_, counters, depth, in_for, n):
             kind = "skip" if (in_for == "plain" and rng.random() < 0.5) else "escape"
             out.append(("if", gen_bool(rng, vars_["r"], 1), [(kind,)], None))
         else:
-            out.append(("begin", gen_stmts(rng, vars_, counters, depth - 1, in_for, rng.randrange(1, 3))))
+            out.append(("begin", gen_stmts(rng, vars_, counters, depth - 1, in_for, rng.randrange(1, 3), frag)))
     return out
 
 
-def gen_function(rng, idx, p_kw=0.15, depth=3):
+def gen_function(rng, idx, p_kw=0.15, depth=3, frag=False):
     used = {"anchor", "a0", "self"}
     name = "f%d" % idx
     used.add(name)
@@ -340,7 +384,7 @@ def gen_function(rng, idx, p_kw=0.15, depth=3):
             pre.append(("assign", n, gen_int(rng, params, 1)))
     cs = list(counters)
     vars_ = {"r": params + locs, "w": locs, "p": params, "loop": list(loops)}
-    body = pre + gen_stmts(rng, vars_, cs, depth, None, rng.randrange(1, 5))
+    body = pre + gen_stmts(rng, vars_, cs, depth, None, rng.randrange(1, 5), frag)
     body.append(("return", gen_int(rng, params + locs, 2)))
     used_counters = [c for c in counters if c not in cs]
     locals_ += [(c, None) for c in used_counters]
